@@ -2,6 +2,7 @@ package generator
 
 import (
 	"fmt"
+	"strings"
 
 	"github.com/vkd/goag/specification"
 )
@@ -176,7 +177,7 @@ func NewOperation(s *specification.Operation, components Componenter, cfg Config
 					if !isRequired {
 						tp = NewOptionalType(schema, cfg)
 					}
-					o.Params.Headers.Add("Authorization", &HeaderParameter{
+					o.Params.Headers.Add(headerKey(o.Params.Headers, "Authorization"), &HeaderParameter{
 						Name:        "Authorization",
 						FieldName:   "Authorization",
 						Description: sr.Scheme.BearerFormat,
@@ -193,7 +194,7 @@ func NewOperation(s *specification.Operation, components Componenter, cfg Config
 					if !isRequired {
 						tp = NewOptionalType(schema, cfg)
 					}
-					o.Params.Headers.Add(sr.Scheme.Name, &HeaderParameter{
+					o.Params.Headers.Add(headerKey(o.Params.Headers, sr.Scheme.Name), &HeaderParameter{
 						Name:        sr.Scheme.Name,
 						FieldName:   Title(sr.Scheme.Name),
 						Description: sr.Scheme.BearerFormat,
@@ -278,4 +279,15 @@ type ResponseCode struct {
 	*Response
 	StatusCode   string
 	ComponentRef *specification.Object[string, specification.Ref[specification.Response]]
+}
+
+// headerKey returns the key under which a header called name is already
+// declared (header names are case-insensitive), or name itself.
+func headerKey(hs specification.Map[*HeaderParameter], name string) string {
+	for _, h := range hs.List {
+		if strings.EqualFold(h.Name, name) {
+			return h.Name
+		}
+	}
+	return name
 }
